@@ -419,12 +419,26 @@ def gen_new(rng, name="p"):
         items = _fields(rng, own, time_ok=use_time)
         st = Struct(tn, items)
         structs.append(st)
+    # an embedding CHAIN of depth 3..4 whose middle types have no accessor-producing field of their own (only the
+    # embedded struct and exported fields): their generated interfaces consist of embedded interfaces only
+    chain = []
+    if ntypes >= 3 and rng.random() < 0.45:
+        chain = rng.sample(range(ntypes), min(ntypes, rng.choice([3, 3, 4])))
+        for a, b in zip(chain, chain[1:]):
+            mid = b != chain[-1]
+            if mid and rng.random() < 0.75:
+                structs[b].items = [SField(up(f.name), f.ty) for f in structs[b].items
+                                    if isinstance(f, SField) and f.ty in ("int", "string", "bool")][:rng.randint(0, 1)]
+            structs[b].items.insert(0, Embed(structs[a].name, ptr=rng.random() < 0.3))
+        # the base of the chain keeps at least one unexported field
+        base = structs[chain[0]]
+        if not any(isinstance(f, SField) and not f.name[:1].isupper() and not f.newskip for f in base.items):
+            base.items.append(SField("core" + base.name.lower(), "int"))
     # embedding: a DAG over a random order (independent of the declaration order, so that an embedding type may
     # be declared before or after the embedded one)
-    order = list(range(ntypes))
-    rng.shuffle(order)
+    order = chain + [i for i in rng.sample(range(ntypes), ntypes) if i not in chain]
     for pos, i in enumerate(order):
-        if pos == 0 or rng.random() < 0.45:
+        if pos == 0 or i in chain or rng.random() < 0.45:
             continue
         for j in rng.sample(order[:pos], rng.randint(1, min(2, pos))):
             if structs[j].tparams:
@@ -477,8 +491,16 @@ def gen_new(rng, name="p"):
             for it in st.items:
                 if isinstance(it, SField) and it.ty == "time.Duration":
                     it.goty = "tm.Duration"
+    chain_structs = [structs[i] for i in chain]
+    if chain_structs:
+        # the chain lives in one file, embedded types first (most of the time), so that a -file / -type=* run
+        # processes it in dependency order
+        cf = rng.choice(files)
+        for st in (chain_structs if rng.random() < 0.8 else list(reversed(chain_structs))):
+            cf.decls.append(st)
     for st in structs:
-        rng.choice(files).decls.append(st)
+        if st not in chain_structs:
+            rng.choice(files).decls.append(st)
     files = [f for f in files if f.decls]
     for f in files:
         if rng.random() < 0.3:
